@@ -604,6 +604,7 @@ void tick_scalar() {
 #if !defined(SIM_SELFCHK)
   } else if (S.active && S.cfg.static_init_throw && ++S.static_ticks == S.cfg.static_init_throw) {
     S.stats->static_init_faults++;
+    c->fired_scalar++;  // the operation in progress did meet an injected fault
     throw ScalarFault();  // StaticInitThrow: exercises __cxa_guard_abort
 #endif
   }
